@@ -103,4 +103,10 @@ def _other_rules(r: Any, spec: project.Spec) -> List[str]:
         rules.append(f"{r.choice(['HIDDEN', 'PRIVATE', 'PUBLIC'])}:{spec.final_fullname(uid)}")
     if r.random() < .4:
         rules.append(r.choice(['PRIVATE:**', 'PUBLIC:**._*', 'HIDDEN:**._*', 'PUBLIC:**']))
+    if r.random() < .5:
+        # several exact rules for one object, with different levels: the one given last decides
+        full = spec.final_fullname(r.choice(uids))
+        lv = r.sample(['HIDDEN', 'PRIVATE', 'PUBLIC'], 2)
+        rules.insert(r.randint(0, len(rules)), f'{lv[0]}:{full}')
+        rules.append(f'{lv[1]}:{full}')
     return rules
